@@ -93,7 +93,7 @@ HARNESSES = {
     "rel-nack": Harness("rel-nack", rel.h_rel_nack, lambda tier: [{"npk": n} for n in ((2, 3) if tier == "quick" else (2, 3, 4))], style="REL", bounds="2..3 (4) packets at offsets -4..8 from a symbolic origin vs origin 5000", encoded=REL_ENC, twin="rel-nack-done", opts={"samples": 1}),
     "rel-stats": Harness("rel-stats", rel.h_rel_stats, lambda tier: [{"npk": n} for n in ((2, 3) if tier == "quick" else (2, 3, 4))], style="REL", bounds="2..3 (4) packets, sequence offsets -3..6, timestamp offsets 0..9000 from symbolic origins, arrival clock symbolic", encoded=REL_ENC, twin="rel-stats-done", opts={"samples": 1}),
     "rel-tsmap": Harness("rel-tsmap", rel.h_rel_tsmap, lambda tier: [{"n": n} for n in (2, 3, 4)], style="REL", bounds="2..4 non-decreasing timestamps with steps < 2^20 from a symbolic 32-bit origin", encoded=REL_ENC, twin="rel-tsmap-done", opts={"samples": 1}),
-    "rel-sctp-recv": Harness("rel-sctp-recv", rel.h_rel_sctp_recv, lambda tier: [{"layout": l, "k": k} for l in ([1, 1, 1], [2, 1]) for k in ((3,) if tier == "quick" else (3, 4, 5))], style="REL", bounds="3 chunks (1+1+1 or 2+1 fragments), 3 (quick) / 3..5 solver-chosen arrivals, TSN and SSN origins symbolic vs 1000/10; deliveries, cumulative TSN, SACK gap blocks and duplicates compared", encoded=REL_ENC, twin="rel-sctp-recv-done", opts={"samples": 1}),
+    "rel-sctp-recv": Harness("rel-sctp-recv", rel.h_rel_sctp_recv, lambda tier: [{"layout": l, "k": k} for l in ([1, 1, 1], [2, 1]) for k in ((3,) if tier == "quick" else (3, 4, 5))] + [{"layout": [1, 1, 1], "k": k, "fwd": True} for k in ((3,) if tier == "quick" else (3, 4))], style="REL", bounds="3 chunks (1+1+1 or 2+1 fragments), 3 (quick) / 3..5 solver-chosen arrivals (in one job set also a FORWARD-TSN abandoning the first message), TSN and SSN origins symbolic vs 1000/10; deliveries, cumulative TSN, SACK gap blocks and duplicates compared", encoded=REL_ENC, twin="rel-sctp-recv-done", opts={"samples": 1}),
     "rel-sctp-send": Harness("rel-sctp-send", rel.h_rel_sctp_send, lambda tier: [{"q": q, "ngaps": g} for q in ((2, 3) if tier == "quick" else (2, 3, 4)) for g in (0, 1, 2) if not (tier == "quick" and q == 3 and g == 2)], style="REL", bounds="sent queue of 2..3 (4) chunks with symbolic sizes and miss counters, one SACK with symbolic cumulative point and <=2 gap blocks, TSN origin symbolic vs 1000", encoded=REL_ENC, twin="rel-sctp-send-done", opts={"samples": 1}),
     "serial-lemmas": Harness(
         "serial-lemmas",
